@@ -262,6 +262,20 @@ Section C05defaults.
   Proof. exact (solve_default_end_beyond_span num sub absf ltb isfin zero ev before after L locate d o span start a s). Qed.
 End C05defaults.
 
+(* KEPT FINDING: the defaults of solve() / iter_periods() are positions turned into labels and looked up again, so "default
+   start / end = first period with enough lags through last with enough leads" is REFUTED on a span in which the label of the
+   default period is carried by several periods (here lags = leads = 0 and four periods, the last two with the same label):
+   a list leaves period 3 silently unsolved, a NumPy array raises KeyError, a pandas Index TypeError.  The theorems above
+   carry the guard `NoDup span` / `locate_ok` that excludes exactly this class. *)
+Theorem C05_default_range_repeated_label_refuted :
+  exists sc d o span s,
+    lags d = 0%nat /\ leads d = 0%nat /\ length span = 4%nat /\ length (status s) = 4%nat /\ min_iter o <= max_iter o /\
+    (exists res, snd (f_solve sc d o 0 span [] None None s) = Ret res /\ r_len res = 3%nat /\
+                 nth_error (status (fst (f_solve sc d o 0 span [] None None s))) 3 = Some Unsolved) /\
+    snd (f_solve sc d o 1 span [] None None s) = Raise KeyError /\
+    snd (f_solve sc d o 3 span [] None None s) = Raise TypeError.
+Proof. exact default_range_repeated_label_refuted. Qed.
+
 (* the frame premise holds for every scripted model whose script makes no absolute write *)
 Theorem C05_scripted_oracles_frame n sc : scripts_local sc = true ->
   hook_frame float n (s_ev n sc) /\ hook_frame float n (s_before n sc) /\ hook_frame float n (s_after n sc).
@@ -304,6 +318,7 @@ Print Assumptions C05_solve_start_before_lags_rejected.
 Print Assumptions C05_solve_default_start_beyond_span.
 Print Assumptions C05_solve_default_end_beyond_span.
 Print Assumptions exS_defaults_beyond_span.
+Print Assumptions C05_default_range_repeated_label_refuted.
 Print Assumptions exS_every_span_kind.
 Print Assumptions exS_repeated_label.
 Print Assumptions exS_start_before_lags.
